@@ -215,6 +215,14 @@ def r4_frontend(ctx):
             sr = [e for e in p.effects if is_call(e, qual="cascade.gateway.client.serialize_response")]
             rv = sr[0].data["args"][0] if sr and sr[0].data["args"] else None
             what = f"{ci.name}{' (router call fails)' if failed else ''}"
+            rc = [e for e in p.effects if e.kind == "call" and (e.data.get("qual") or "").startswith(f"{R}.JobRouter.")]
+            want_args = {"get_result": ["j1", m.fields["dataset_id"]], "progress_of": [["j1"]], "spawn_job": [m.fields["job"]]}
+            badarg = [e for e in rc if e.data["qual"].rsplit(".", 1)[-1] in want_args and list(e.data["args"]) != want_args[e.data["qual"].rsplit(".", 1)[-1]]]
+            if badarg:
+                ctx.violation("C18.R4", fi.qual, loc(fi, badarg[0].node), f"router arguments for {ci.name}",
+                              f"{ci.name}: the router is called as {badarg[0].brief()[:120]}; expected the request's own fields in order {vkey(want_args[badarg[0].data['qual'].rsplit('.', 1)[-1]])} "
+                              f"(a result must be looked up for the job and dataset the request names)")
+                continue
             if p.exit[0] != "return" or not sends or not sr:
                 ctx.violation("C18.R4", fi.qual, loc(fi), f"reply to {what}",
                               f"{what}: the handler ends with {p.exit[0]} / sends {len(sends)} replies — every request must be answered "
